@@ -321,3 +321,83 @@ theorem globLoop_sel {rd : Reader} {mk : Matcher} {cfg : Cfg} {base : Str} :
           exact ⟨_, (hp1 _).mpr ⟨d, hd, hst⟩, hs'⟩
 
 end ShVerif.C19
+
+namespace ShVerif.C19
+open ShVerif ShVerif.L3
+
+/-! ## escaped fields as tokens -/
+
+theorem toks_cons_ne {c : Rune} (rest : Str) (hc : c ≠ cBS) : toks (c :: rest) = (c, false) :: toks rest := by
+  rw [toks.eq_def]; simp [hc]
+
+theorem toks_bs_cons (d : Rune) (rest : Str) : toks (cBS :: d :: rest) = (d, true) :: toks rest := by
+  rw [toks.eq_def]; simp
+
+theorem danglingBS_cons_ne {c : Rune} (rest : Str) (hc : c ≠ cBS) : danglingBS (c :: rest) = danglingBS rest := by
+  rw [danglingBS.eq_def]; simp [hc]
+
+theorem danglingBS_bs_cons (d : Rune) (rest : Str) : danglingBS (cBS :: d :: rest) = danglingBS rest := by
+  rw [danglingBS.eq_def]; simp
+
+theorem toks_append_aux : ∀ (n : Nat) (a b : Str), a.length ≤ n → danglingBS a = false →
+    toks (a ++ b) = toks a ++ toks b := by
+  intro n
+  induction n with
+  | zero =>
+    intro a b hl _
+    have : a = [] := List.length_eq_zero_iff.mp (Nat.le_zero.mp hl)
+    subst this; rfl
+  | succ n ih =>
+    intro a b hl h
+    match a, hl, h with
+    | [], _, _ => rfl
+    | c :: rest, hl, h =>
+      by_cases hc : c = cBS
+      · subst hc
+        match rest, hl, h with
+        | [], _, h => simp [danglingBS] at h
+        | d :: rest', hl, h =>
+          rw [danglingBS_bs_cons] at h
+          have hl' : rest'.length ≤ n := by simp at hl; omega
+          simp only [List.cons_append]
+          rw [toks_bs_cons, toks_bs_cons, ih rest' b hl' h]
+          rfl
+      · rw [danglingBS_cons_ne _ hc] at h
+        have hl' : rest.length ≤ n := by simp at hl; omega
+        simp only [List.cons_append]
+        rw [toks_cons_ne _ hc, toks_cons_ne _ hc, ih rest b hl' h]
+        rfl
+
+theorem toks_append {a : Str} (b : Str) (h : danglingBS a = false) : toks (a ++ b) = toks a ++ toks b :=
+  toks_append_aux a.length a b (Nat.le_refl _) h
+
+theorem toks_quoteMeta (s b : Str) :
+    toks (quoteMeta s ++ b) = s.map (fun c => (c, isQuoteMetaSpecial c)) ++ toks b := by
+  induction s with
+  | nil => rfl
+  | cons c rest ih =>
+    simp only [quoteMeta]
+    by_cases hc : isQuoteMetaSpecial c = true
+    · simp only [hc, if_true, List.cons_append, List.map_cons]
+      rw [toks_bs_cons, ih]
+    · have hc' : isQuoteMetaSpecial c = false := by simpa using hc
+      have hbs : c ≠ cBS := by
+        intro h; subst h; simp [isQuoteMetaSpecial] at hc'
+      simp only [hc', Bool.false_eq_true, if_false, List.cons_append, List.map_cons]
+      rw [toks_cons_ne _ hbs, ih]
+
+theorem toks_escapeParts (f : Field) (h : ∀ p ∈ f, p.quoted = false → danglingBS p.val = false) :
+    toks (escapeParts f) = f.flatMap (partToks isQuoteMetaSpecial) := by
+  induction f with
+  | nil => rfl
+  | cons p rest ih =>
+    have ih' := ih (fun q hq => h q (List.mem_cons_of_mem _ hq))
+    simp only [escapeParts, List.flatMap_cons, partToks]
+    by_cases hq : p.quoted = true
+    · simp only [hq, if_true]
+      rw [toks_quoteMeta, ih']
+    · have hq' : p.quoted = false := by simpa using hq
+      simp only [hq', Bool.false_eq_true, if_false]
+      rw [toks_append _ (h p (List.mem_cons_self ..) hq'), ih']
+
+end ShVerif.C19
